@@ -129,9 +129,10 @@ def record_new_state_facts(chk, pid):
             if before is not None:
                 w.content[tuple(T_NAME)] = 'previous'
         out_size = eng.choose(2, 'stdout bytes') * 5
-        has3 = eng.choose(2, '$3 created')
+        # 0: no $3; 1: a regular file; 2: a symbolic link that does not resolve at the moment the script exits (ln -s later-built $3)
+        has3 = eng.choose(3, '$3 created')
         if has3:
-            w.fs[tuple(TMP_NAME)] = tuple(w.fresh_stamp())
+            w.fs[tuple(TMP_NAME)] = tuple(w.fresh_stamp()) if has3 == 1 else tuple(buildworld.S_DLINK)
             w.content[tuple(TMP_NAME)] = '$3'
         else:
             w.fs[tuple(TMP_NAME)] = None
@@ -240,7 +241,7 @@ def record_new_state_facts(chk, pid):
         # (6) on success the target is exactly the script's output
         if eng.check(ret == 0):
             if st['has3']:
-                want = (tuple(S_NEW), '$3')
+                want = (tuple(S_NEW) if st['has3'] == 1 else tuple(buildworld.S_DLINK), '$3')
             elif st['out_size'] > 0:
                 want = None
                 if now[1] != 'stdout':
@@ -262,6 +263,10 @@ def record_new_state_facts(chk, pid):
             try:
                 stamp = cellnow('stamp')
                 want_stamp = tuple(fsn) if fsn is not None else tuple(S_MISSING)
+                if fsn is not None and tuple(fsn) == tuple(buildworld.S_DLINK):
+                    # a symbolic link is recorded as "<stamp of the link>+<stamp of what it points to>" (File::read_stamp); the link
+                    # does not resolve, so the second part is the "missing" stamp
+                    want_stamp = tuple(fsn) + tuple(b'+') + tuple(S_MISSING)
                 if stamp is None or tuple(stamp) != want_stamp:
                     return cand('row-stamp', 'success but the recorded stamp %r is not the stamp of the file on disk %r' % (stamp, want_stamp))
                 g = cellnow('is_generated')
@@ -543,6 +548,20 @@ def argv_replay(scn, c):
         lines = dict(l.split('=', 1) for l in out.split('\n') if '=' in l)
         bad = lines.get('rc') == '0' or lines.get('tgt') != 'MISSING'
         return bad, 'real binaries, `redo %s tgt` with a script whose first command fails: %r (must fail and leave no target)' % (flags, lines)
+    if c.get('role') == 'script-args:cycles':
+        # the script asks for its own target: with its lock id in REDO_CYCLES that is a cyclic dependency error at once; without it
+        # the request recurses (REDO_UNLOCKED: nobody really holds the lock) or waits for the parent's lock
+        env = ('REDO=1 REDO_BASE="$PWD" REDO_STARTDIR="$PWD" REDO_PWD= REDO_TARGET= REDO_RUNID=99 REDO_LOG=0 REDO_DEPTH= REDO_UNLOCKED=1 '
+               if w.get('unlocked') else '')
+        script = ('set -u\nmkdir proj && cd proj\nprintf \'redo-ifchange tgt\\necho x\\n\' > tgt.do\nprintf \'echo warm\\n\' > warm.do\n'
+                  'redo-ifchange warm >/dev/null 2>&1\n' + env + 'timeout 20 redo-ifchange tgt >../out.log 2>&1; echo "rc=$?"\n'
+                  'grep -ci cyclic ../out.log | sed "s/^/cyclic=/"\ntail -2 ../out.log | cut -c1-200')
+        rc, out = scn.run({}, script, timeout=120)
+        c['scenario_output'] = out[-1200:]
+        lines = dict(l.split('=', 1) for l in out.split('\n') if '=' in l)
+        bad = lines.get('rc') == '124' or lines.get('cyclic', '0') == '0'
+        return bad, 'real binaries, tgt.do = `redo-ifchange tgt`%s: rc=%s, %s line(s) mention a cyclic dependency' % (
+            ' under REDO_UNLOCKED' if w.get('unlocked') else '', lines.get('rc'), lines.get('cyclic'))
     t, dof = w['target'], w['do_file']
     # a `#!` line is reproduced with /bin/sh so that the same script body runs; the interpreter obligation itself is not replayable
     script = (ARGV_SCENARIO.replace('@DODIR@', posixpath.dirname(dof) or '.').replace('@TDIR@', posixpath.dirname(t) or '.')
@@ -1158,6 +1177,8 @@ def script_arguments(chk, pid):
         verbose = eng.choose(2, 'verbose')
         xtrace = eng.choose(2, 'xtrace')
         shebang = eng.choose(2, 'shebang')
+        # REDO_UNLOCKED: the job runs under a lock its caller (redo-unlocked's parent) holds; the script still runs "inside" the target
+        unlocked = eng.choose(2, 'unlocked') if k == 0 else 0
         R = z3.Int('R')
         w = BuildWorld(eng, R)
         eng.world = w
@@ -1169,9 +1190,9 @@ def script_arguments(chk, pid):
             w.fs[tuple(d_)] = tuple(S_DIR)
         w.do_firstline = b'#!/usr/bin/env python3\n' if shebang else b'echo hi\n'
         w.canonicalize = lambda e, p_: ok(Vec(list(bytes(deref_all(p_).items)), 'PathBuf'))
-        env = dbmodel.make_env(eng, R, log=0, verbose=verbose, xtrace=xtrace)
+        env = dbmodel.make_env(eng, R, log=0, verbose=verbose, xtrace=xtrace, unlocked=bool(unlocked))
         psr = new_cell(dbmodel.make_process_state(eng, env))
-        st.update(w=w, shape=ARG_SHAPES[k], verbose=verbose, xtrace=xtrace, shebang=shebang)
+        st.update(w=w, shape=ARG_SHAPES[k], verbose=verbose, xtrace=xtrace, shebang=shebang, unlocked=unlocked)
         w.run_child = True
         w.child_rv = None
         ptx = dbmodel.begin(eng, psr)
@@ -1189,7 +1210,9 @@ def script_arguments(chk, pid):
         w = st['w']
         tname, dofile, cwd, a1, a2 = st['shape']
         wit = {'target': tname.decode(), 'do_file': dofile.decode(), 'verbose': st['verbose'], 'xtrace': st['xtrace'], 'shebang': st['shebang'],
-               'argv': [a.decode('latin-1') for a in (w.exec_argv or [])], 'cwd': (w.child_cwd or b'').decode('latin-1')}
+               'argv': [a.decode('latin-1') for a in (w.exec_argv or [])], 'cwd': (w.child_cwd or b'').decode('latin-1'),
+               'unlocked': st.get('unlocked', 0)}
+        chk.goal('script invocation: a job started under REDO_UNLOCKED', bool(st.get('unlocked')))
 
         def cand(role, what):
             return {'role': 'script-args:' + role, 'kind': 'argv', 'what': 'script invocation: ' + what, 'witness': wit}
